@@ -145,6 +145,12 @@ def fault_sites(deck):
             else:
                 sites.append(('fill-array:one-short', ci))
                 sites.append(('fill-array:one-long', ci))
+                # the entry too many in other words: through shorthand, with
+                # a sign
+                sites.append(('fill-array:long-by-repeat', ci))
+                sites.append(('fill-array:long-by-multiply', ci))
+                sites.append(('fill-array:long-by-interpolate', ci))
+                sites.append(('fill-array:long-signed-entry', ci))
     for ti, t in enumerate(deck['transforms']):
         if t['id'] in used_tr and t['spec']['full'] is not None:
             for how in sorted(used_tr[t['id']]):
@@ -280,6 +286,14 @@ def inject(deck, fclass, site):
         toks = [str(u) for u in c['fill']['univs']]
         if fclass.endswith('short'):
             toks = toks[:-1]
+        elif fclass.endswith('by-repeat'):
+            toks = toks + ['1r']
+        elif fclass.endswith('by-multiply'):
+            toks = toks + ['1m']
+        elif fclass.endswith('by-interpolate'):
+            toks = toks + ['1i', str(int(toks[-1]) + 2)]
+        elif fclass.endswith('signed-entry'):
+            toks = toks + ['+' + toks[-1]]
         else:
             toks = toks + [toks[-1]]
         c['fill']['univs_spelled'] = toks
